@@ -17,7 +17,10 @@ Extracted (every run, from /repo's working tree and the vendored jsonwebtoken so
     `register_snaptun_identity_handler` that compute `lifetime` (`exp_time().duration_since(SystemTime::now())`,
     refused with InvalidArgument when negative, before anything is registered), that it is handed unchanged
     to the one `identity_registry.register(..)` call, and that the registration key is `snap_token.jti()`.
-    Any other shape of those statements is an ExtractError.
+    Any other shape of those statements is an ExtractError;
+  * snap-control/src/server/auth.rs: the literal of `auth_str.strip_prefix("Bearer ")` in `extract_bearer_token`
+    (the rest of the header value is the token, verbatim) and the shape of `AuthMiddleware::call`
+    (extract -> verify -> inner | 401).
 """
 import re, os, glob
 
@@ -292,6 +295,23 @@ def register(api):
         if "let key = snap_token.jti();" not in hb or len(re.findall(r"\bkey\b", hb)) != 3:
             raise E("register_snaptun_identity_handler: the registration key is not `snap_token.jti()`")
 
+        # ---- bearer extraction (AuthMiddleware) -----------------------------------------------------------
+        rel_auth = "crates/snap/snap-control/src/server/auth.rs"
+        auth = api.strip_comments(api.read(rel_auth))
+        eb = " ".join(fn_body(auth, r"pub\s+fn\s+extract_bearer_token\s*\(", "extract_bearer_token").split())
+        m = re.search(r'match auth_str\.strip_prefix\("((?:[^"\\]|\\.)*)"\) \{ Some\(token\) => Ok\(token\.to_string\(\)\), None => Err\(ExtractBearerTokenError::AuthHeaderNotBearer\), \}', eb)
+        if not m:
+            raise E(f"extract_bearer_token: the token is not `auth_str.strip_prefix(<literal>)` taken verbatim: {eb!r}")
+        bearer_prefix = m.group(1)
+        if "\\" in bearer_prefix:
+            raise E("extract_bearer_token: escaped prefix literal is not modelled")
+        if not re.search(r'req\.headers\(\)\.get\("authorization"\)', eb) or not re.search(r"let auth_str = match auth_header\.to_str\(\) \{ Ok\(str\) => str,", eb):
+            raise E("extract_bearer_token: header lookup / to_str changed")
+        call = " ".join(fn_body(auth, r"fn\s+call\s*\(\s*&mut self\s*,\s*mut request\s*:\s*Request<Body>\s*\)\s*->\s*Self::Future\s*\{", "AuthMiddleware::call").split())
+        if not (re.search(r"let token = match extract_bearer_token\(&request\) \{ Ok\(token\) => token, Err\(err\) => \{ .*? return Box::pin\(async \{ Ok\(build_unauthorized_response\(err\)\) \}\); \} \};", call)
+                and re.search(r"match verifier\.verify\(&token\)\.await \{ Ok\(token_claims\) => \{ request\.extensions_mut\(\)\.insert\(token_claims\); inner\.call\(request\)\.await \} Err\(err\) => \{ .*? Ok\(build_unauthorized_response\(err\)\) \} \}", call)):
+            raise E("AuthMiddleware::call: not `extract_bearer_token -> verifier.verify(&token) -> inner.call | 401`")
+
         def opt_list(x):
             return "none" if x is None else "some " + lean_list(x)
 
@@ -328,6 +348,9 @@ def register(api):
         body += "def handlerRefusesPastExpiryBeforeRegister : Bool := true\n"
         body += "def handlerRegisterCalls : Nat := 1\n"
         body += "def handlerRegisterKeyIsJti : Bool := true\n"
+        body += "-- AuthMiddleware (auth.rs): token = auth_str.strip_prefix(bearerPrefix) taken verbatim, then verifier.verify(&token); 401 otherwise\n"
+        body += f"def bearerPrefix : String := {lean_str(bearer_prefix)}\n"
+        body += "def middlewareVerifiesExtractedToken : Bool := true\n"
         body += "end ScionVerif.Generated.Token\n"
         vals = {"jsonwebtoken": jwt_ver, "algorithms": cfg["algorithms"], "required_spec_claims": cfg["required"],
                 "leeway": cfg["leeway"], "reject_tokens_expiring_in_less_than": cfg["reject_tokens_expiring_in_less_than"],
@@ -335,6 +358,6 @@ def register(api):
                 "aud": cfg["aud"], "iss": cfg["iss"], "sub": cfg["sub"], "known_algorithms": algs,
                 "checkable_spec_claims": checkable, "v1_tag": v1_tag, "v0_fields": lf0, "v1_fields": lf1,
                 "v0_required": r0, "v1_required": r1, "v1_flatten_private_claims": flat1, "exp_unit_ns": u0,
-                "handler_lifetime": "exp_time().duration_since(SystemTime::now())", "handler_register_calls": 1, "handler_key": "jti"}
-        srcs = [rel_tv, rel_lib, rel_v0, rel_v1, rel_crpc, f"jsonwebtoken-{jwt_ver}/src/validation.rs", f"jsonwebtoken-{jwt_ver}/src/algorithms.rs"]
+                "handler_lifetime": "exp_time().duration_since(SystemTime::now())", "handler_register_calls": 1, "handler_key": "jti", "bearer_prefix": bearer_prefix}
+        srcs = [rel_tv, rel_lib, rel_v0, rel_v1, rel_crpc, rel_auth, f"jsonwebtoken-{jwt_ver}/src/validation.rs", f"jsonwebtoken-{jwt_ver}/src/algorithms.rs"]
         return api.write_lean("Token", body, srcs), vals
